@@ -22,7 +22,8 @@ RULE = ("C12's responses (payload 0..120 bytes, identity/gzip/zlib/zstd, Content
         "non-trivial = every case with a fault; distinct = distinct (case, observation)")
 TRUSTED_BASE = [
     "model coq/model/ChunkParse.v (read_chunked / _update_chunk_length / _handle_chunk over the bytes after the headers ending in EOF, http.client._safe_read, BufferedReader.readline, int(line, 16))",
-    "http.client's own chunk and Content-Length handling (the read()/read1() path) and the content decoders are judged by the oracle only",
+    "model coq/model/LenRead.v (Content-Length framing: _raw_read's length check, read() / read(n) / stream(n) without a content decoder, over http.client's HTTPResponse.read as transcribed there)",
+    "http.client's own chunk handling (the read()/read1() path of a chunked body), read1 on a body with a length, and the content decoders are judged by the oracle only",
 ]
 ASSUMPTIONS = ["enforce_content_length is left at its default", "a chunk-size line that is still well-formed after a corruption cannot be detected by any client (either-region)",
                "a cut at or after the zero of the last-chunk line delivers the whole payload (either-region)"]
@@ -67,9 +68,15 @@ def build(case):
 def in_model_domain(case):
     if case.get("keepalive"):
         return False               # the model reads up to EOF; a server that keeps the connection open is judged by the oracle
-    if case["framing"] != "chunked" or case["api"][0] not in ("stream", "read_chunked"):
-        return False
     if case["decode"] and case["coding"] != "identity":
+        return False
+    if case["framing"] == "len":
+        # Content-Length framing: coq/model/LenRead.v (read(), preload, read(n) loops, stream(n); not read1)
+        api, arg = case["api"][0], case["api"][1]
+        if api in ("read", "data"):
+            return True
+        return api in ("read_n", "stream") and arg is not None and arg >= 1
+    if case["framing"] != "chunked" or case["api"][0] not in ("stream", "read_chunked"):
         return False
     raw, head, body, complete, spans, eof = build(case)
     f = case["fault"]
@@ -82,6 +89,9 @@ def in_model_domain(case):
 
 def encode(case):
     raw, head, body, complete, spans, eof = build(case)
+    if case["framing"] == "len":
+        declared = len(c12.wire_of(case)[2])
+        return [1, list(body), declared, {"read": 0, "data": 0, "read_n": 1, "stream": 3}.get(case["api"][0], 9), case["api"][1] or 0, B(case["decode"]), B(eof)]
     return [list(body), Opt(case["api"][1]), B(eof)]
 
 
